@@ -1,7 +1,7 @@
 """C16 - reward-contract balances mirror bSei token balances (DESIGN 6, C16)."""
 from ..callgraph import explore, storage_effects, message_effects
 from ..expr import show, find
-from ..ledger import ledger_entries
+from ..ledger import ledger_entries, stale_reads
 from .common import entry, msg_enum, variant_env, stored, where, arm_handler
 from .msgs import wasm_execute
 from .C10 import BSHUB
@@ -25,6 +25,8 @@ def kname(l):
 def run(prog, world, sem, rep):
     rep.rule("C16.a", "mirror agreement: for every bSei message variant the multiset of reward messages {Increase|Decrease(address, amount)} "
              "equals the cw20 ledger's balance deltas {+|-(account, amount)} (same accounts, signs and amount)", 9)
+    rep.rule("C16.f", "reward side: every success exit of IncreaseBalance / DecreaseBalance has written both the holder record and State (no path "
+             "updates one store and not the other)", 2)
     rep.rule("C16.c", "in Send / SendFrom the mirror messages precede the wrapped response's messages (the receive hook)", 2)
     rep.rule("C16.d", "reward side: IncreaseBalance / DecreaseBalance apply the message amount with the same sign to the holder's balance "
              "(record keyed by the message address) and to State.total_balance", 2)
@@ -65,6 +67,10 @@ def run(prog, world, sem, rep):
                 bad.append("mirror payload type %s" % payload.info[0])
         if ledger != mirror:
             bad.append("ledger deltas %s but mirror messages %s" % (sorted(ledger), sorted(mirror)))
+        st = stale_reads(sem, eff, {BAL: []})
+        if st:
+            bad.append("a balance saved at line %d is computed from a load made stale by the write at line %d when the accounts coincide (the mirror messages net to zero, the ledger does not)" % (
+                st[0][0].body.blocks[st[0][1]].term.line, st[0][0].body.blocks[st[0][3]].term.line))
         if n_msgs != len(mirror):
             bad.append("duplicate mirror messages (%d messages, %d distinct)" % (n_msgs, len(mirror)))
         rep.ob("C16.a", "bsei::%s" % v, not bad, "; ".join(bad) if bad else "ledger = mirror = %s" % sorted(ledger), where(ex), key="C16.a | bsei::%s" % v)
@@ -112,4 +118,22 @@ def run(prog, world, sem, rep):
                 bad.append("%s not changed by %+d x msg.amount: %s" % (nm, sign, w0[:2]))
         if hb and kname(hb[0]["key"]) != "msg.address":
             bad.append("holder record keyed by %s instead of msg.address" % kname(hb[0]["key"]))
+        # C16.f must-write
+        from .common import arm_handler as _ah
+        h = _ah(sem, vs)
+        miss = []
+        for cellx in (HOLDERS, RSTATE):
+            sites = set()
+            for (vis, bb, kind, cell2, key, val, e) in eff:
+                if cell2 == cellx and kind in ("write", "update"):
+                    lv, lbb = vis, bb
+                    while lv is not h and lv.parent is not None:
+                        lv, lbb = lv.parent
+                    if lv is h:
+                        sites.add(lbb)
+            oks = [bb for (bb, idx, kind, x) in sem.ret_sites(h.be) if kind == "ok" and bb in h.blocks]
+            r = h.be.cfg.reach([0], stop=sites)
+            if not sites or not oks or any(b in r for b in oks):
+                miss.append(cellx.split("::")[-1])
+        rep.ob("C16.f", "reward::%s always writes holder and State" % v, not miss, "a success exit is reachable without writing %s" % miss if miss else "both stores written on every success path", where(h.body))
         rep.ob("C16.d", "reward::%s" % v, not bad, "; ".join(bad) if bad else "balance and total_balance %+d x msg.amount, keyed by msg.address" % sign, where(rex))
